@@ -99,30 +99,52 @@ fn c14_iter_storage() {
     std::mem::forget(c);
 }
 
-#[kani::proof]
-#[kani::stub(std::fmt::format, stub_format)]
-#[kani::stub(std::ffi::OsStr::to_str, stub_osstr_to_str)]
-#[kani::stub(std::io::copy, stub_io_copy)]
-#[kani::stub(crate::internal::path::cfb_uppercase_char, super::uptable::table_upper)]
-#[kani::stub(crate::internal::stream::Stream::minialloc, crate::internal::stream::vacc::stub_upgrade)]
-#[kani::unwind(140)]
-fn c14_stream_ops() {
-    let mut p = small_parts(&[1, EOC, EOC], 0, 100, 2, 64);
-    let mut c = mk_comp(&mut p);
-    let mut s = c.open_stream("/s").unwrap(); free(&c);
-    let mut buf = [0u8; 10];
-    assert!(s.read(&mut buf).is_ok()); free(&c);
-    let _ = c.entry("/s"); free(&c); // a reader between two stream operations
-    assert!(s.seek(SeekFrom::Start(95)).is_ok()); free(&c);
-    assert!(s.write(&[1, 2, 3, 4, 5, 6, 7, 8, 9, 10]).is_ok()); free(&c);
-    assert!(s.flush().is_ok()); free(&c);
-    let _ = c.is_stream("/s"); free(&c);
-    assert!(s.set_len(40).is_ok()); free(&c);
-    assert!(s.seek(SeekFrom::End(-5)).is_ok()); free(&c);
-    assert!(s.read(&mut buf).is_ok()); free(&c);
-    let e = c.entry("/s").unwrap(); free(&c);
-    assert!(e.len() == 40, "C14/C06: reader sees the state after the whole stream operation");
-    kani::cover!(true, "end");
-    std::mem::forget(s);
-    std::mem::forget(c);
+/// Stream side of C14.  The lock acquisition sites of the handle operations
+/// (Stream::new, set_len, the refill in read, flush, the Flusher used by
+/// seek/write/drop) are the real ones; the storage functions they call while
+/// holding the guard are diverted to the storage model of h_cache (variant
+/// buf8), so that the window logic is crossed several times at small cost.
+/// After every handle operation no guard may be live, and a reader-style
+/// acquisition (what entry()/exists()/... do) must be possible and must see
+/// the directory length of a whole-operation state.
+macro_rules! c14_stream_seq {
+    ($name:ident, [$($op:expr),*], $maxbuf:expr) => {
+        #[kani::proof]
+        #[kani::stub(std::fmt::format, stub_format)]
+        #[kani::stub(std::io::copy, stub_io_copy)]
+        #[kani::stub(crate::internal::stream::Stream::minialloc, crate::internal::stream::vacc::stub_upgrade)]
+        #[kani::unwind(34)]
+        fn $name() {
+            use super::h_cache as hc;
+            let mut model = hc::init();
+            let arc = std::sync::Arc::new(super::lockty::RwLock::new(hc::tiny_minialloc()));
+            let mut s = crate::internal::stream::Stream::new(&arc, 1, $maxbuf);
+            assert!(super::lockty::live_guards(&arc) == 0, "C14: a lock guard is still held after Stream::new returned");
+            $(
+                hc::op_c(&mut s, &mut model, $op);
+                assert!(super::lockty::live_guards(&arc) == 0, "C14: a lock guard is still held after a stream operation returned");
+                {
+                    let g = arc.read().unwrap(); // a reader between two stream operations
+                    let l = g.dir_entry(1).stream_len;
+                    assert!(l <= hc::CAP as u64, "C14: reader saw a length no whole stream operation produced");
+                }
+                assert!(super::lockty::live_guards(&arc) == 0);
+            )*
+            let r = s.flush();
+            assert!(r.is_ok());
+            assert!(super::lockty::live_guards(&arc) == 0, "C14: a lock guard is still held after flush returned");
+            {
+                let g = arc.read().unwrap();
+                assert!(g.dir_entry(1).stream_len == model.len as u64, "C14/C06: reader sees the state after the whole stream operation");
+            }
+            kani::cover!(true, "end");
+            std::mem::forget(s);
+            std::mem::forget(arc);
+        }
+    };
 }
+
+// r6 w6 l20 f s0 r6 l7 w10 f  (op codes of vlib/seqs.py NAMES)
+c14_stream_seq!(c14_stream_rw, [1, 3, 16, 5, 1, 1], 8);
+c14_stream_seq!(c14_stream_setlen, [1, 15, 7, 1, 14, 4], 8);
+c14_stream_seq!(c14_stream_big_window, [1, 3, 15, 16, 5, 1, 14, 4], 32);
